@@ -69,10 +69,44 @@ def run_factgen():
     rc, out = build_factgen()
     if rc != 0:
         return False, "factgen does not build:\n" + out
-    rc, out = sh([os.path.join(BUILD, "factgen"), "-repo", SRC, "-out", GEN])
+    rc, out = sh([os.path.join(BUILD, "factgen"), "-repo", SRC, "-out", GEN, "-ref", GENREF])
     if rc != 0:
         return False, "factgen could not extract a fact from the current source:\n" + out
     return True, out
+
+
+GENREF = os.path.join(VERIF, "corpus", "generated.ref")
+
+# which properties a factgen generator serves (default: genCxx -> Cxx)
+GEN_PROPS = {"genAll": ["C01", "C02", "C11", "C12"], "genCrc": ["C01", "C11", "C12", "C15"], "genC0304": ["C03", "C04"]}
+
+
+def unrecognised_for(pid):
+    """Generators that did not recognise the shape of the current source (their facts are the reference ones)."""
+    out = []
+    try:
+        lines = open(os.path.join(GEN, "factgen.unrecognised")).read().splitlines()
+    except OSError:
+        return out
+    for l in lines:
+        g, _, msg = l.partition("\t")
+        m = re.fullmatch(r"genC(\d\d)", g)
+        served = GEN_PROPS.get(g, ["C" + m.group(1)] if m else [])
+        if pid in served:
+            out.append("%s: %s" % (g, msg))
+    return out
+
+
+def record_generated_ref():
+    """Snapshot of the generated facts of the tree the models were written against (see factgen -ref)."""
+    os.makedirs(GENREF, exist_ok=True)
+    for f in os.listdir(GENREF):
+        os.remove(os.path.join(GENREF, f))
+    for f in sorted(os.listdir(GEN)):
+        if f.endswith(".lean") or f.endswith(".pos"):
+            if f == "LogFlow.lean":
+                continue    # written by go/logflow itself; its failure is never degraded
+            shutil.copyfile(os.path.join(GEN, f), os.path.join(GENREF, f))
 
 
 # ---------------------------------------------------------------- overlay (N1, N2, hooks)
@@ -112,9 +146,18 @@ def make_overlay(scale=None):
     if scale is not None:
         p = os.path.join(SRC, "pkg/rdb/reader.go")
         t = open(p).read()
-        if t.count("16 * 1024 * 1024") + t.count("16*1024*1024") == 0:
-            problems.append("N3: chunk limit literal not found in pkg/rdb/reader.go")
-        t = t.replace("16 * 1024 * 1024", str(scale)).replace("16*1024*1024", str(scale))
+        # the span of the chunk-limit expression as factgen (go/ast) found it in readObjectValue, whatever its form
+        try:
+            a, b, txt = open(os.path.join(GEN, "c01_chunklimit.pos")).read().split()
+            a, b = int(a), int(b)
+            raw = open(p, "rb").read()
+            if b"".join(raw[a:b].split()) != txt.encode():
+                raise ValueError("stale span")
+            t = (raw[:a] + str(scale).encode() + raw[b:]).decode()
+        except (OSError, ValueError):
+            if t.count("16 * 1024 * 1024") + t.count("16*1024*1024") == 0:
+                problems.append("N3: chunk limit expression not found in pkg/rdb/reader.go")
+            t = t.replace("16 * 1024 * 1024", str(scale)).replace("16*1024*1024", str(scale))
         write_if_changed(os.path.join(odir, "reader.go"), t)
         repl[p] = os.path.join(odir, "reader.go")
     hooks = os.path.join(HARNESS, "hooks")
@@ -407,8 +450,12 @@ def run_property(pid, tier, seed, replay=None):
         return 1 if ctx.violations else 0
 
     changed = anchors_changed(pid)
+    unrec = unrecognised_for(pid)
+    for u in unrec:
+        print("NOTE: property=%s source shape not recognised by %s — facts not re-extracted, the model is tied by the "
+              "correspondence run alone on this tree" % (pid, u[:300]))
     gen_tier = tier
-    if changed and tier == "quick" and spec.get("escalate", True):
+    if (changed or unrec) and tier == "quick" and spec.get("escalate", True):
         gen_tier = "escalated"   # a modelled source file changed: 3x the quick generator budget
     if hok and driver_ok and spec.get("differential", True):
         cc = corpus_cases(pid)
@@ -487,6 +534,7 @@ def run_property(pid, tier, seed, replay=None):
             "known_findings_hit": sorted(ctx.known_hit.keys()),
             "broken_obligations": [b[0] for b in broken],
             "anchor_files_changed": changed,
+            "facts_not_reextracted": unrec,
             "generator_budget": gen_tier,
         },
         "assumptions": spec.get("assumptions", []),
@@ -533,6 +581,16 @@ def main(argv):
         with open(os.path.join(VERIF, "corpus", "anchors.expected"), "w") as f:
             json.dump({pid: anchor_hashes(pid) for pid in ids}, f, indent=1, sort_keys=True)
         print("recorded anchor hashes of %d properties" % len(ids))
+        if REPO != "/repo":
+            print("not recording reference facts: VERIF_REPO is set")
+            return 0
+        with Lock():
+            ok, msg = run_factgen()
+            if not ok or os.path.exists(os.path.join(GEN, "factgen.unrecognised")):
+                print("reference facts NOT recorded: factgen does not fully recognise this tree\n" + msg)
+                return 1
+            record_generated_ref()
+        print("recorded reference facts (%d files) in corpus/generated.ref" % len(os.listdir(GENREF)))
         return 0
     pid = argv[0]
     tier = os.environ.get("VERIF_TIER", "quick")
